@@ -13,7 +13,7 @@ from ..core.loader import AnalysisError, short, own_nodes, norm
 from ..core.report import where
 
 TECHNIQUE = 'CFG must-pass-through (dominance) analysis; template-string abstract interpretation of the opcode dispatch chains; table comparison against an EVM reference'
-LEVEL_TEXT = "Decides three necessary structural clauses of C01 on the current source: (a) every emission of an optimized block is reachable only after the built-in comparison said 'equal' or after the fallback re-binding; (b) opcode->operator->opcode round trip is the identity and injective on the optimizable vocabulary; (c) the stack-arity table equals the EVM reference. It does not decide equivalence of any concrete block."
+LEVEL_TEXT = "Decides three necessary structural clauses of C01 on the current source: (a) every emission of an optimized block is reachable only after the built-in comparison said 'equal' or after the fallback re-binding; (b) opcode->operator->opcode round trip is the identity and injective on the optimizable vocabulary; (c) the stack-arity table equals the EVM reference; (e) every opcode of the front-end's vocabulary that the EVM reference lists as externally visible or position dependent is a splitting / block-ending instruction (otherwise it is a pure term that can be dropped or moved); the block comparison itself is evaluated on stand-in blocks that differ in exactly one part (shared with C05.j). It does not decide equivalence of any concrete block."
 
 EXPLANATION = ("Static must-pass-through analysis on the CFG of every function of gasol_asm.py that obtains an "
                "optimized block: each container insertion / return of that block is reachable only after "
